@@ -82,11 +82,12 @@ HARNESSES = [
         strength="B(caller buffers <= 8 bytes; complete in every scalar parameter, stream field and callee result)",
         note="inflate/deflate replaced by recording contract models (own contracts: K-inflate/K-deflate); std::panic::catch_unwind replaced by Ok(f()) (Kani ICE on the intrinsic; exact under panic=abort)")
       for (n, sv, f) in (
-        ("k_capi_mz_inflate", ["C17", "C06"], ["mz_inflate", "mz_inflateInit2", "mz_inflateEnd", "mz_inflate_oxide", "mz_inflate_init2_oxide", "StreamOxide::try_new", "StreamOxide::into_mz_stream", "MZFlush::new", "as_c_return_code"]),
+        ("k_capi_mz_inflate", ["C17", "C06", "C11", "C16"], ["mz_inflate", "mz_inflateInit2", "mz_inflateEnd", "mz_inflate_oxide", "mz_inflate_init2_oxide", "StreamOxide::try_new", "StreamOxide::into_mz_stream", "MZFlush::new", "as_c_return_code"]),
         ("k_capi_custom_allocators_rejected", ["C17"], ["StreamOxide::try_new"]),
         ("k_capi_tinfl_mem_to_heap", ["C17"], ["tinfl_decompress_mem_to_heap", "miniz_def_alloc_func", "miniz_def_realloc_func", "miniz_def_free_func"]),
         ("k_capi_tinfl_decompress", ["C17", "C06"], ["tinfl_decompress"]),
         ("k_capi_tinfl_mem_to_mem", ["C17"], ["tinfl_decompress_mem_to_mem"]),
+        ("k_capi_checksum_wrappers", ["C16", "C17"], ["mz_adler32", "mz_crc32"]),
         ("k_capi_tdefl_init", ["C17"], ["tdefl_init", "Compressor::flags"]),
         ("k_capi_tdefl_compress", ["C17"], ["tdefl_compress", "tdefl_flush -> TDEFLFlush", "TDEFLStatus -> tdefl_status"]),
         ("k_capi_output_buffer_putter_fixed", ["C17"], ["output_buffer_putter (fixed-capacity sink of tdefl_compress_mem_to_mem)"]),
@@ -115,6 +116,9 @@ HARNESSES = [
     H("k_decompress_to_vec_limit", "K-vec", ["C01", "C03", "C04", "C05", "C08"], fns=["decompress_to_vec_inner", "decompress_error"], cost=40,
       strength="B(input <= 3 bytes, limit <= 8 => <= 5 growth steps, unwinding assertion on; complete in engine results)",
       note="decompress replaced by contract model M-decompress"),
+    H("k_decompress_slice_iter", "K-vec", ["C03", "C04", "C07", "C08", "C09", "C16"], fns=["decompress_slice_iter_to_slice"], cost=40, timeout=900,
+      strength="B(6 input bytes cut into <= 3 slices, output 8 bytes; complete in cut points, slice count, format/checksum choice, engine results)",
+      note="decompress replaced by contract model M-decompress (NeedsMoreInput only with the more-input flag, then all input consumed)"),
     H("k_compress_to_vec_growth", "K-cvec", ["C01", "C09", "C10"], fns=["compress_to_vec_inner"], cost=60,
       strength="B(input <= 4 bytes, <= 5 growth steps; complete in level, format, engine results)",
       note="compress replaced by contract model M-compress (Finish: Done, or Okay with the output buffer filled)"),
